@@ -78,7 +78,7 @@ CLAIMED = {
              "well-formed start), C07_WF_* (the structural invariant and its preservation by every operation: induction over run), C07_conserves (every operation conserves every asset's "
              "total except its own mint/burn and the pair's LP token on provision/withdrawal), C07_route_frame, C07_factory_moves_nothing.  On the real contracts: full-ledger snapshot "
              "comparison with the model plus the frame / conservation / LP-supply monitor after every step of multi-actor histories with bystanders holding balances and allowances toward "
-             "every pair.",
+             "every pair.  History level (session 4, Proofs/ConserveHistProofs.v): C07_history_conserves, C07_native_never_minted, C07_native_total_constant (over any history, the total of every native denom over a roster containing what the history touches is constant), C07_native_total_example.",
         design_ref="DESIGN.md section 8 (C07)"),
     "C09": dict(
         text="Coq theorems C09_helper (exact characterisation of assert_sent_native_token_balance), C09_swap / C09_provide / C09_exec_swap / C09_exec_provide (a successful provision or swap "
@@ -111,7 +111,7 @@ CLAIMED = {
         text="Coq theorems C19_page, C19_walk (for every sorted registry with records under their own keys and every page size >= 1 or absent, the client walk's pages "
              "concatenate to exactly the registered entries and the next page is empty; induction over the unbounded list), C19_no_duplicates, C19_page_size, "
              "C19_default_page, C19_insert_sorted over the model of read_pairs/calc_range_start; tied to the real read_pairs on MockStorage with full walks and "
-             "every-cursor pages.  The defect found here was repaired in /repo (fix: aa4409b).",
+             "every-cursor pages.  The defect found here was repaired in /repo (fix: aa4409b).  System level (session 4, Proofs/WorldWalkProofs.v): C19_world_store, C19_world_walk, C19_reachable_walk (from the harness's start, after any history, a client's walk with any page size lists every registered pair exactly once, for any encoding of assets that gives the records different keys), C19_world_walk_example.",
         design_ref="DESIGN.md section 8 (C19), section 9"),
     "C17": dict(
         text="Coq theorems C17_update (re-registration rewrites EVERY record of the unbounded registry in the denom's position and keeps RegOK, i.e. record = pair self-description; induction "
